@@ -519,16 +519,25 @@ def dative(rng, n):
         m, l1, l2 = rng.choice(metals), rng.choice(ligs), rng.choice(ligs)
         if l2 in ("[C-]#[O+]",):
             l2 = "N"
-        first = l2 if l2 not in ("CS(C)", "CP(C)(C)", "c1ccccn1", "CC#N") else {"CS(C)": "S(C)C", "CP(C)(C)": "P(C)(C)C",
-                                                                               "c1ccccn1": "n1ccccc1", "CC#N": "N#CC"}[l2]
+        first = {"CS(C)": "S(C)C", "CP(C)(C)": "P(C)(C)C", "c1ccccn1": "n1ccccc1", "CC#N": "N#CC", "CN": "NC",
+                 "CO": "OC"}.get(l2, l2)
         donor_last = l1 if l1 != "[C-]#[O+]" else "[O+]#[C-]"
         cplx = "%s->%s<-%s" % (donor_last, m, first)
         f1, f2 = free.get(l1, l1), free.get(l2, l2)
         metal_free = m.replace("(", "").replace(")", "")
         metal_free = {"[Pt]ClCl": "Cl[Pt]Cl", "[Pd]ClCl": "Cl[Pd]Cl", "[Au]Cl": "[Au]Cl", "[Pt]BrBr": "Br[Pt]Br",
                       "[Rh]Cl": "[Rh]Cl", "[Hg]ClCl": "Cl[Hg]Cl"}.get(metal_free, metal_free)
-        k = rng.randrange(4)
-        if k == 0:
+        k = rng.randrange(6)
+        if k >= 4:
+            # the same ligand twice in the complex, one of them missing among the reactants (what is written
+            # after the '->' is then balanced by the reactants on its own) - and the other way round
+            l1 = l2 if l2 != "[C-]#[O+]" else "N"
+            donor_last = l1
+            cplx = "%s->%s<-%s" % (donor_last, m, first)
+            f1 = free.get(l1, l1)
+            rx = "%s.%s>>%s" % (f1, metal_free, cplx) if k == 4 else "%s.%s.CCO>>%s.CCO" % (metal_free, f1, cplx)
+            tag = "dative_one_of_two_equal_ligands_missing"
+        elif k == 0:
             rx = "%s.%s.%s>>%s" % (f1, metal_free, f2, cplx)
             tag = "dative_balanced"
         elif k == 1:
